@@ -1218,6 +1218,10 @@ func newOfficialRoaringIterator(data []byte) (*officialRoaringIterator, error) {
 		// start out pointed at where the offsets would have been.
 		r.currentDataOffset = uint32(offsetOffset)
 	} else {
+		if offsetOffset+int(r.keys*4) > len(data) {
+			return nil, fmt.Errorf("insufficient data for offsets: want %d bytes, got %d",
+				offsetOffset+int(r.keys*4), len(data))
+		}
 		r.offsets = data[offsetOffset : offsetOffset+int(r.keys*4)]
 	}
 	// set key to -1; user should call Next first.
